@@ -1,5 +1,5 @@
 // C30 (data movement): serialize() of a vector / hvector / indexed type whose old type is a resized one-byte type (size 1, symbolic extent):
-// the packed bytes must be exactly those the MPI type map selects. P_CTOR 1 vector, 2 hvector, 3 indexed ; P_COUNT blocks (concrete)
+// the packed bytes must be exactly those the MPI type map selects. P_CTOR 1 vector, 2 hvector, 3 indexed, 4 struct ; P_COUNT blocks (concrete)
 #define VERIF_COMMON_STUBS
 #include "verif.h"
 #include "private.hpp"
@@ -8,6 +8,12 @@
 using simgrid::smpi::Datatype;
 int simgrid::smpi::F2C::add_f() { return 0; }
 simgrid::smpi::F2C::F2C() {}
+#ifndef P_CNT
+#define P_CNT 1 // number of consecutive elements of the type that are packed
+#endif
+#ifndef P_FIRST
+#define P_FIRST 0 // displacement of the first block (indexed)
+#endif
 #define NC 48
 static unsigned long ncw[NC / 8];
 static unsigned char packed[8];
@@ -43,19 +49,32 @@ extern "C" void harness_serialize()
   int idx[P_COUNT];
   for (int i = 0; i < P_COUNT; i++) {
     bl[i]  = P_B;
-    idx[i] = i * P_STRIDE + (i > 0 ? 1 : 0); // increasing block displacements
+    idx[i] = P_FIRST + i * P_STRIDE + (i > 0 ? 1 : 0); // increasing block displacements, the first one at P_FIRST
     for (int k = 0; k < 2; k++)
       disp[i][k] = (idx[i] + k) * e;
   }
+#if P_CTOR == 4 // struct: the same blocks given by byte displacements, every block of the same old type
+  MPI_Aint bdisp[P_COUNT];
+  MPI_Datatype types[P_COUNT];
+  for (int i = 0; i < P_COUNT; i++) {
+    bdisp[i] = idx[i] * e;
+    types[i] = elem;
+  }
+  Datatype::create_struct(P_COUNT, bl, bdisp, types, &t);
+#else
   Datatype::create_indexed(P_COUNT, bl, idx, elem, &t);
 #endif
-  t->serialize(nc, packed, 1);
-  int pos = 0;
-  for (int i = 0; i < P_COUNT; i++)
-    for (int k = 0; k < bl[i]; k++) {
-      CHECK(packed[pos] == nc[disp[i][k]], "packing copies exactly the bytes the type map selects, in type-map order");
-      pos++;
-    }
-  CHECK(static_cast<int>(t->size()) == pos, "the packed size is the number of selected bytes");
+#endif
+  t->serialize(nc, packed, P_CNT); // P_CNT consecutive elements of the type: element j is the type map displaced by j times the extent
+  const long ext = t->get_extent();
+  int pos        = 0;
+  for (int j = 0; j < P_CNT; j++)
+    for (int i = 0; i < P_COUNT; i++)
+      for (int k = 0; k < bl[i]; k++) {
+        CHECK(j * ext + disp[i][k] < NC && pos < 8, "harness: shape fits the buffers");
+        CHECK(packed[pos] == nc[j * ext + disp[i][k]], "packing copies exactly the bytes the type map selects, in type-map order");
+        pos++;
+      }
+  CHECK(static_cast<int>(t->size()) * P_CNT == pos, "the packed size is the number of selected bytes");
   verif_witness();
 }
